@@ -18,3 +18,6 @@ open SSVerif.Json
 #print axioms C14_begin_field_exact_zero_start
 #print axioms C14_json_says_iterators_fmt3
 #print axioms C14_duration_field_close
+#print axioms C14_begin_fields_monotone
+#print axioms C14_begin_field_error_budget
+#print axioms C14_ulp_relative
